@@ -618,6 +618,21 @@ func (fv *FnV) doAppend(st *State, cc *ssa.CallCommon, pos token.Pos) (*SV, erro
 			addLen = "(s!len " + t.v.T + ")"
 		}
 	}
+	if fv.k != nil && single != "" {
+		for _, cl := range fv.k.CallAsserts["append"] {
+			env := fv.contractEnv(st, fv.entry, nil)
+			if li := fv.innermostLoop(); li != nil {
+				env.loop = li
+			}
+			env.vars["appended"] = CVal{T: single, S: g.sortOf(et), Typ: et}
+			env.vars["target"] = CVal{T: s, S: sSlice, Typ: cc.Args[0].Type()}
+			t, err := env.evalBool(cl.Text)
+			if err != nil {
+				return nil, fmt.Errorf("%s: at-call append assert %s: %v", fv.name, cl.Label, err)
+			}
+			fv.emit(st, "A", "append."+cl.Label, cl.Props, t, "holds for the element appended here: "+cl.Text, pos)
+		}
+	}
 	newLen := fv.c.Define("applen", sBV64, "(bvadd (s!len "+s+") "+addLen+")")
 	inPlace := fv.c.Define("inplace", sBV64[:0]+sBool, "(bvsle "+newLen+" (s!cap "+s+"))")
 	h := fv.heapGet(st, k)
